@@ -100,7 +100,7 @@ impl C03 {
                 if let Some((b, _)) = normalise(before, &pool.asset_decimals) {
                     let mx = b.iter().max().unwrap();
                     let mn = b.iter().min().unwrap();
-                    if mx > &(mn * 1000u32) {
+                    if mx > &(mn * 1000u32) || before.iter().any(|x| *x < 1000) {
                         v.finding = Some("S9-stableswap-skewed-pool-accuracy".into());
                         v.truncate = false;
                     }
